@@ -707,20 +707,41 @@ func (g *genState) elem(depth int) (elemFn, SX) {
 		return func(a zapcore.ArrayEncoder) error { a.AppendBool(v); return nil }, L(I(0), Bool(v))
 	case 1:
 		v := genInt(r)
-		switch r.Intn(3) {
+		switch r.Intn(5) {
 		case 0:
 			return func(a zapcore.ArrayEncoder) error { a.AppendInt64(v); return nil }, L(I(1), Z(v))
 		case 1:
 			return func(a zapcore.ArrayEncoder) error { a.AppendInt32(int32(v)); return nil }, L(I(1), Z(int64(int32(v))))
+		case 2:
+			return func(a zapcore.ArrayEncoder) error { a.AppendInt16(int16(v)); return nil }, L(I(1), Z(int64(int16(v))))
+		case 3:
+			return func(a zapcore.ArrayEncoder) error { a.AppendInt(int(v)); return nil }, L(I(1), Z(v))
 		default:
 			return func(a zapcore.ArrayEncoder) error { a.AppendInt8(int8(v)); return nil }, L(I(1), Z(int64(int8(v))))
 		}
 	case 2:
+		// every unsigned width, with the top bit set half of the time (values a signed cast would turn negative)
 		v := uint64(genInt(r))
 		if r.Bool() {
-			return func(a zapcore.ArrayEncoder) error { a.AppendUint64(v); return nil }, L(I(2), U(v))
+			v |= 1 << 63
 		}
-		return func(a zapcore.ArrayEncoder) error { a.AppendUint16(uint16(v)); return nil }, L(I(2), U(uint64(uint16(v))))
+		switch r.Intn(6) {
+		case 0:
+			return func(a zapcore.ArrayEncoder) error { a.AppendUint64(v); return nil }, L(I(2), U(v))
+		case 1:
+			return func(a zapcore.ArrayEncoder) error { a.AppendUint(uint(v)); return nil }, L(I(2), U(v))
+		case 2:
+			return func(a zapcore.ArrayEncoder) error { a.AppendUintptr(uintptr(v)); return nil }, L(I(2), U(v))
+		case 3:
+			w := uint32(v) | 1<<31
+			return func(a zapcore.ArrayEncoder) error { a.AppendUint32(w); return nil }, L(I(2), U(uint64(w)))
+		case 4:
+			w := uint8(v) | 1<<7
+			return func(a zapcore.ArrayEncoder) error { a.AppendUint8(w); return nil }, L(I(2), U(uint64(w)))
+		default:
+			w := uint16(v) | 1<<15
+			return func(a zapcore.ArrayEncoder) error { a.AppendUint16(w); return nil }, L(I(2), U(uint64(w)))
+		}
 	case 3:
 		v := genFloat(r)
 		if r.Bool() {
